@@ -24,7 +24,16 @@ def run_metric(req):
     y = np.array(req.get("y", req["x"]), dtype=float)
     bad = []
     obs = {}
-    call = lambda a, b: float(f(np.array(a, dtype=float).copy(), np.array(b, dtype=float).copy()))
+    raised = []
+
+    def call(a, b):
+        # "on its domain every metric returns a finite number": an arithmetic exception on a domain input is a
+        # failure of that clause, not a failed replay
+        try:
+            return float(f(np.array(a, dtype=float).copy(), np.array(b, dtype=float).copy()))
+        except (ZeroDivisionError, FloatingPointError, OverflowError, ValueError) as ex:
+            raised.append(type(ex).__name__)
+            return float("nan")
     if kind == "equiv":
         v = call(x, y)
         try:
@@ -59,6 +68,10 @@ def run_metric(req):
         a = call(x, y)
         obs.update(value=a)
         if not math.isfinite(a):
+            bad.append("well-defined")
+    if raised:
+        obs["raised"] = raised
+        if kind != "equiv" and "well-defined" not in bad:
             bad.append("well-defined")
     return dict(obs=obs, violated=bad)
 
